@@ -18,6 +18,7 @@
 
 #include <cxxabi.h>
 #include <pthread.h>
+#include <sys/syscall.h>
 #include <time.h>
 #include <unistd.h>
 
@@ -468,6 +469,9 @@ void fatal(const std::string& verdict, const std::string& sig, const std::string
     if (g_fatal) g_fatal(verdict);
     fflush(stdout);
     fflush(stderr);
+    // leave without running exit hooks (the sanitizers' own end-of-process checks would turn a deliberate
+    // abandonment of parked threads into a report and change the exit status)
+    syscall(SYS_exit_group, 3);
     _exit(3);
 }
 
@@ -555,6 +559,7 @@ namespace {
                 if (++idle_ticks >= g_wd_secs * 5) {
                     if (g_fatal) g_fatal("hang");
                     fflush(stdout);
+                    syscall(SYS_exit_group, 4);
                     _exit(4);
                 }
             } else {
